@@ -713,7 +713,7 @@ fn api_of(op: &Op) -> &'static str {
         Op::DelRange(..) | Op::DelBool(..) => "delete_query",
         Op::Batch(_) => "run",
         Op::DeleteAll => "delete_all",
-        Op::Commit | Op::PrepareCommit | Op::CommitThenDelete(_) => "commit",
+        Op::Commit | Op::PrepareCommit | Op::CommitThenDelete(_) | Op::CommitDuringMergeEnd => "commit",
         Op::PrepareAbort => "abort",
         Op::Rollback => "rollback",
         Op::Merge(_) => "merge",
